@@ -97,6 +97,38 @@ def gen_mid():
         yield from gen_leaf()
 
 
+@contextlib.asynccontextmanager
+async def agcm_exiting():
+    try:
+        yield "x"
+    finally:
+        await trap()
+
+
+@contextlib.asynccontextmanager
+async def agcm_plain():
+    with PlainCM():
+        yield "y"
+
+
+@stackscope.unwrap_context_generator.register(agcm_exiting)
+@stackscope.unwrap_context_generator.register(agcm_plain)
+def _ucg_hook(frame, context):
+    return None
+
+
+async def exiting_user():
+    async with agcm_plain():
+        async with agcm_exiting():
+            pass
+
+
+async def body_user():
+    async with agcm_plain():
+        async with agcm_exiting():
+            await trap()
+
+
 class Custom:
     def __init__(self, items):
         self.items = items
@@ -107,6 +139,16 @@ class Custom:
 def unwrap_custom(c):
     for it in c.items:
         yield it
+
+
+def run_out(c):
+    """drive a coroutine to completion (a coroutine whose managers suspend while exiting must not be close()d)"""
+    for _ in range(20):
+        try:
+            c.send(None)
+        except StopIteration:
+            return
+    raise RuntimeError("scenario coroutine did not finish")
 
 
 class Scenario:
@@ -122,6 +164,18 @@ def scenarios():
         c.send(None)
         return c, lambda: c.close()
     out.append(("async chain with nested generator-based managers and exit stacks", mk_async))
+
+    def mk_exiting():
+        c = exiting_user()
+        c.send(None)
+        return c, lambda: run_out(c)
+    out.append(("generator-based managers with unwrap_context_generator hooks, innermost one exiting", mk_exiting))
+
+    def mk_body():
+        c = body_user()
+        c.send(None)
+        return c, lambda: run_out(c)
+    out.append(("generator-based managers with unwrap_context_generator hooks, suspended in the body", mk_body))
 
     def mk_gen():
         g = gen_mid()
@@ -177,7 +231,32 @@ def scenarios():
 
 # ---------------------------------------------------------------- injection
 KINDS = ["unwrap_stackitem", "iter_step", "elaborate_frame", "context_analysis", "elaborate_context",
-         "unwrap_context", "fill_context"]
+         "unwrap_context", "unwrap_context_generator", "fill_context"]
+
+
+class HookProxy:
+    """stands in for a code_dispatch hook object: counts / faults calls, delegates everything else"""
+
+    def __init__(self, inj, kind, orig):
+        self._inj, self._kind, self._orig = inj, kind, orig
+
+    def __call__(self, *a, **k):
+        self._inj.tick(self._kind)
+        return self._orig(*a, **k)
+
+    def __getattr__(self, name):
+        return getattr(self._orig, name)
+
+
+def under_extract_outermost():
+    """independent signature of F14: is the faulting hook running underneath an extract_outermost() call that
+    stackscope's own glue made (its error list is thrown away once a frame has been produced)?"""
+    f = sys._getframe(1)
+    while f is not None:
+        if f.f_code.co_name == "extract_outermost" and f.f_globals.get("__name__") == "stackscope._extract":
+            return True
+        f = f.f_back
+    return False
 
 
 class Injector:
@@ -192,6 +271,7 @@ class Injector:
         self.counts[kind] = self.counts.get(kind, 0) + 1
         if self.target == (kind, self.counts[kind]):
             self.exc = Injected("%s#%d" % (kind, self.counts[kind]))
+            self.exc.in_outermost = under_extract_outermost()
             self.fired = (kind, self.counts[kind])
             raise self.exc
 
@@ -201,6 +281,8 @@ class Injector:
                          ctx=_extract.contexts_active_in_frame, ectx=_extract.elaborate_context,
                          uctx=_extract.unwrap_context, fill=_extract.fill_context, child=_extract.extract_child)
         self.child_stacks = []
+        self.orig["ucg"] = _glue.unwrap_context_generator
+        _glue.unwrap_context_generator = HookProxy(self, "unwrap_context_generator", self.orig["ucg"])
         o = self.orig
 
         def unwrap(item):
@@ -261,6 +343,7 @@ class Injector:
         _extract.unwrap_context = o["uctx"]
         _extract.fill_context = o["fill"]
         _extract.extract_child = o["child"]
+        _glue.unwrap_context_generator = o["ucg"]
 
 
 def all_stacks(st, acc=None):
@@ -292,7 +375,7 @@ def errors_of(st):
 
 
 def run_one(name, mk, inj, rec, max_k):
-    res = {"scenario": name, "injections": 0, "bad": [], "f13": [], "traces": [], "counts": {}}
+    res = {"scenario": name, "injections": 0, "bad": [], "f13": [], "f14": [], "traces": [], "counts": {}}
     target, done = mk()
     try:
         # fault-free baseline
@@ -330,7 +413,9 @@ def run_one(name, mk, inj, rec, max_k):
                 continue  # call pattern changed after an earlier ... (cannot happen for a single fault)
             res["injections"] += 1
             where = [s for s in all_stacks(st) if any(e is inj.exc for e in errors_of(s))]
-            if len(where) != 1:
+            if len(where) == 0 and inj.exc.in_outermost:
+                res["f14"].append("%s" % (tgt,))
+            elif len(where) != 1:
                 res["bad"].append("%s: injected exception found in %d Stack errors" % (tgt, len(where)))
             frames = [(f.pyframe, f.lineno) for f in st.frames]
             # lower bound for "outward frames kept": the frames the top-level run had yielded are unchanged
@@ -367,6 +452,7 @@ def run_one(name, mk, inj, rec, max_k):
                 inj.counts[kind] = inj.counts.get(kind, 0) + 1
                 if (kind, inj.counts[kind]) in _t:
                     e = Injected("%s#%d" % (kind, inj.counts[kind]))
+                    e.in_outermost = under_extract_outermost()
                     _fired.append(e)
                     raise e
             inj.tick = tick
@@ -379,7 +465,9 @@ def run_one(name, mk, inj, rec, max_k):
                     if not any(e is x for x in found):
                         # independent signature of F13: the exception WAS recorded, in a nested Stack that a later
                         # fault in an enclosing hook threw away together with the sub-tree under construction
-                        if any(e is x for cs in inj.child_stacks for x in errors_of(cs)):
+                        if e.in_outermost:
+                            res["f14"].append("pair %s+%s" % (a, b))
+                        elif any(e is x for cs in inj.child_stacks for x in errors_of(cs)):
                             res["f13"].append("pair %s+%s" % (a, b))
                         else:
                             res["bad"].append("pair %s+%s: an injected exception is not reported anywhere" % (a, b))
